@@ -32,7 +32,7 @@ class WigBedProp(Prop):
 
 def byte_level_check(self, rep, workdir):
     """(B) byte-level correspondence: the model writer's bytes vs the real file, where the model applies
-    (uncompressed, manual or no zooms, integer values). Evidence of model fidelity; a mismatch here with the
+    (uncompressed, manual or no zooms; bigWig: integer values; bigBed: every input — its statistics are coverage depths). Evidence of model fidelity; a mismatch here with the
     observables intact is a NOTE, not a violation (a layout-preserving rewrite must not raise an alarm)."""
     stage = []
     for c in self._last_cases:
@@ -40,6 +40,8 @@ def byte_level_check(self, rep, workdir):
         if c.kind == "wig" and o.get("compress") == "0" and o.get("zooms") != "auto" and (self._last_impl.get(c.id) or ["x"])[0] == "R ok" \
                 and not (c.tags & {"zero_length_mid", "zero_length_at_0", "zero_length_at_end"}):
             stage.append(CaseT("wb_" + c.id, "wigbytes", [], c.lines))
+        elif c.kind == "bed" and o.get("compress") == "0" and o.get("zooms") != "auto" and (self._last_impl.get(c.id) or ["x"])[0] == "R ok":
+            stage.append(CaseT("wb_" + c.id, "bedbytes", [], c.lines))
     mo = run_model(stage, os.path.join(workdir, "bytes"))
     eq = ne = na = 0
     fileof_eq = fileof_ne = 0
@@ -59,7 +61,8 @@ def byte_level_check(self, rep, workdir):
         else:
             ne += 1
             first = first or (sc.id[3:], il, ml)
-    rep.coverage["byte_level_model_writer"] = {"files_compared": eq + ne, "byte_equal": eq, "different": ne, "model_not_applicable": na,
+    nbed = sum(1 for sc in stage if sc.kind == "bedbytes")
+    rep.coverage["byte_level_model_writer"] = {"bigbed_files_among_them": nbed, "files_compared": eq + ne, "byte_equal": eq, "different": ne, "model_not_applicable": na,
                                                "fileOf_model_equals_these_bytes": fileof_eq, "fileOf_model_differs": fileof_ne}
     if first:
         rep.notes.append(f"(B) byte-level: model writer and real writer differ on {ne} files (first: case {first[0]}: real `{first[1]}` model `{first[2]}`); observables agree, so this is a note")
